@@ -58,7 +58,7 @@ func targets() []*target {
 				})
 				return
 			}, comment: "(condition of the nested diagnostic)"},
-		{pkg: slogPkg, recv: "handlerWriter", fn: "Write", coq: "bridge_admit", fallback: "DecisionRef.bridge_admit_ref",
+		{pkg: slogPkg, recv: "handlerWriter", fn: "Write", coq: "bridge_admit", fallback: "DecisionRef.bridge_admit_now",
 			params: []string{"(f_enabled : Z -> bool)", "(s_lvl s_l_level : Z)"}, result: "bool",
 			cond: func(fd *ast.FuncDecl) ast.Expr {
 				if len(fd.Body.List) > 0 {
@@ -356,9 +356,13 @@ func targets() []*target {
 			effects: []string{"s_extraFrames"}, params: []string{"(s : eref)", "(s_extraFrames : Z)", "(extraFrames : Z)"}, result: "Z", final: "s_extraFrames",
 			tymap: map[string]string{"*Entry": "eref"}},
 		{pkg: slogPkg, recv: "Entry", fn: "WithSkip", coq: "with_skip_child", file: "Loggers", strict: true, fallback: "TreeRef.with_skip_child_ref",
-			tymap:  map[string]string{"*Entry": "eref"},
+			tymap:  map[string]string{"*Entry": "eref"}, nils: map[string]string{"eref": "eref_nil"}, panicT: "eref_nil",
 			calls:  map[string]callSpec{"*Entry.newChildLogger": {pure: "f_newChild %0", spread: true}, "*Entry.withSkip": {pure: "f_withSkip %r %0"}},
-			params: []string{"(f_newChild : bytes -> eref)", "(f_withSkip : eref -> Z -> eref)", "(s_name : bytes)", "(s_extraFrames : Z)", "(extraFrames : Z)"},
+			// the receiver's children, format flags and level are inputs, and a write to such a field of the CHILD is a setter
+			// applied to it: touching them is a different result, not a fall-back
+			setters: map[string]string{"useJSON": "set_useJSON", "useColor": "set_useColor", "level": "set_level", "extraFrames": "set_extraFrames"},
+			params: []string{"(f_newChild : bytes -> eref)", "(f_withSkip : eref -> Z -> eref)", "(set_useJSON set_useColor : eref -> bool -> eref)", "(set_level set_extraFrames : eref -> Z -> eref)",
+				"(s_name : bytes)", "(s_extraFrames s_level : Z)", "(s_useJSON s_useColor : bool)", "(s_items : gomapB eref)", "(extraFrames : Z)"},
 			result: "eref", final: "eref_nil"},
 
 		// nest: s.ops is only read (a list of (group, attrs)); the attributes are slices of heap cells; NewGroupedAttr
